@@ -161,6 +161,25 @@ theorem mapGet_mapInsert' {β : Type} (m : Map β) (k : Bytes) (v : β) (k' : By
       · have : (a == k') = false := by simpa using h
         simp [this]
 
+/-- fresh, pairwise distinct keys are appended -/
+theorem foldl_mapInsert_fresh {β : Type} (m : Map β) (ps : List (Bytes × β)) (hf : ∀ p ∈ ps, ¬ HasKey m p.1)
+    (hd : Distinct ps) : ps.foldl (fun m p => mapInsert m p.1 p.2) m = m ++ ps := by
+  induction ps generalizing m with
+  | nil => simp
+  | cons p r ih =>
+    simp only [List.foldl_cons]
+    rw [mapInsert_fresh p.2 (hf p (by simp))]
+    have hd' := List.pairwise_cons.mp hd
+    rw [ih (m ++ [(p.1, p.2)]) ?_ hd'.2]
+    · simp
+    · intro q hq hk
+      rcases hasKey_append.mp hk with h | h
+      · exact hf q (by simp [hq]) h
+      · obtain ⟨x, hx, hxk⟩ := h
+        simp only [List.mem_singleton] at hx
+        subst hx
+        exact hd'.1 q hq hxk
+
 /-! ### `keyNat` is injective -/
 
 theorem keyNat_pos (b : UInt8) (r : Bytes) : 0 < keyNat (b :: r) := by
